@@ -991,6 +991,11 @@ class _GenerateRenderMethod:
             def visitCallNamespaceTag(s, node):
                 pass
 
+            def visitControlLine(s, node):
+                # the nodes below a control line are listed in the
+                # enclosing tag as well; nested <%call>s included
+                pass
+
             def visitDefOrBase(s, node):
                 self.write_inline_def(node, callable_identifiers, nested=False)
                 if not node.is_anonymous:
